@@ -263,7 +263,7 @@ func (f *Fragment) Encode(w io.Writer) error {
 		return fmt.Errorf("moof not set in fragment")
 	}
 	traf := f.Moof.Traf
-	if f.EncOptimize&OptimizeTrun != 0 {
+	if f.EncOptimize&OptimizeTrun != 0 && traf != nil {
 		err := traf.OptimizeTfhdTrun()
 		if err != nil {
 			return err
@@ -288,7 +288,7 @@ func (f *Fragment) EncodeSW(sw bits.SliceWriter) error {
 		return fmt.Errorf("moof not set in fragment")
 	}
 	traf := f.Moof.Traf
-	if f.EncOptimize&OptimizeTrun != 0 {
+	if f.EncOptimize&OptimizeTrun != 0 && traf != nil {
 		err := traf.OptimizeTfhdTrun()
 		if err != nil {
 			return err
